@@ -387,3 +387,381 @@ theorem dict_routes_codes (d : Dict) (hw : DictWF d) (r : Bytes) (c : Nat) (h : 
       simp [hr]
 
 end Cell2v.Codec
+
+namespace Cell2v.Codec
+
+/-! ## `trimWs` (model of `strings.TrimSpace` on the generator's blanks) and the result window -/
+theorem dropWhile_head_not (p : Nat → Bool) (l : Bytes) (b : Nat) (h : (l.dropWhile p).head? = some b) : p b = false := by
+  induction l with
+  | nil => simp at h
+  | cons x xs ih =>
+    simp only [List.dropWhile_cons] at h
+    split at h
+    · exact ih h
+    · rename_i hx
+      simp at h; subst h; simpa using hx
+
+theorem dropWhile_eq_self (p : Nat → Bool) (l : Bytes) (h : ∀ b, l.head? = some b → p b = false) : l.dropWhile p = l := by
+  cases l with
+  | nil => rfl
+  | cons x xs =>
+    have := h x (by simp)
+    simp [this]
+
+theorem trimRight_split (l : Bytes) : l = trimRight l ++ (l.reverse.takeWhile isBlank).reverse := by
+  unfold trimRight
+  rw [← List.reverse_append, List.takeWhile_append_dropWhile, List.reverse_reverse]
+
+theorem trimRight_last_not (l : Bytes) (b : Nat) (h : (trimRight l).getLast? = some b) : isBlank b = false := by
+  unfold trimRight at h
+  rw [List.getLast?_reverse] at h
+  exact dropWhile_head_not _ _ _ h
+
+theorem trimRight_cons_keep (x : Nat) (l : Bytes) (hx : isBlank x = false) : trimRight (x :: l) = x :: trimRight l := by
+  unfold trimRight
+  rw [List.reverse_cons, List.dropWhile_append]
+  split
+  · rename_i h
+    have := List.isEmpty_iff.mp h
+    simp [this, hx]
+  · simp
+
+theorem trimRight_eq_self (l : Bytes) (h : ∀ b, l.getLast? = some b → isBlank b = false) : trimRight l = l := by
+  unfold trimRight
+  rw [dropWhile_eq_self _ _ (by intro b hb; rw [List.head?_reverse] at hb; exact h b hb), List.reverse_reverse]
+
+theorem trimWs_head_not (bs : Bytes) (b : Nat) (h : (trimWs bs).head? = some b) : isBlank b = false := by
+  unfold trimWs at h
+  match hd : bs.dropWhile isBlank with
+  | [] => rw [hd] at h; simp [trimRight] at h
+  | x :: l =>
+    have hx : isBlank x = false := dropWhile_head_not isBlank bs x (by rw [hd]; rfl)
+    rw [hd, trimRight_cons_keep x l hx] at h
+    simp at h; subst h; exact hx
+
+theorem trimWs_last_not (bs : Bytes) (b : Nat) (h : (trimWs bs).getLast? = some b) : isBlank b = false :=
+  trimRight_last_not _ b h
+
+theorem trimWs_eq_self (bs : Bytes) (h1 : ∀ b, bs.head? = some b → isBlank b = false)
+    (h2 : ∀ b, bs.getLast? = some b → isBlank b = false) : trimWs bs = bs := by
+  unfold trimWs
+  rw [dropWhile_eq_self _ _ h1, trimRight_eq_self _ h2]
+
+theorem trimWs_idem (bs : Bytes) : trimWs (trimWs bs) = trimWs bs :=
+  trimWs_eq_self _ (trimWs_head_not bs) (trimWs_last_not bs)
+
+theorem mem_takeWhile_p (p : Nat → Bool) (l : Bytes) (b : Nat) (h : b ∈ l.takeWhile p) : p b = true := by
+  induction l with
+  | nil => simp at h
+  | cons x xs ih =>
+    simp only [List.takeWhile_cons] at h
+    split at h
+    · rename_i hx
+      simp only [List.mem_cons] at h
+      rcases h with rfl | h
+      · exact hx
+      · exact ih h
+    · simp at h
+
+theorem trimWs_split (bs : Bytes) : ∃ pre post, bs = pre ++ trimWs bs ++ post ∧
+    (∀ b ∈ pre, isBlank b = true) ∧ (∀ b ∈ post, isBlank b = true) := by
+  refine ⟨bs.takeWhile isBlank, ((bs.dropWhile isBlank).reverse.takeWhile isBlank).reverse, ?_, ?_, ?_⟩
+  · unfold trimWs
+    rw [List.append_assoc, ← trimRight_split, List.takeWhile_append_dropWhile]
+  · intro b hb; exact mem_takeWhile_p _ _ _ hb
+  · intro b hb; rw [List.mem_reverse] at hb; exact mem_takeWhile_p _ _ _ hb
+
+/-! window -/
+theorem winPush_get {α : Type} (w : List α) (x : α) (i : Nat) (hi : i + 1 < winCap) :
+    (winPush w x)[i + 1]? = w[i]? := by
+  unfold winPush
+  rw [List.getElem?_take]
+  simp [hi]
+
+theorem winPush_head {α : Type} (w : List α) (x : α) : (winPush w x)[0]? = some x := by
+  simp [winPush, winCap]
+
+theorem window_stable {α : Type} (xs : List α) : ∀ (w : List α) (r : α) (i : Nat), w[i]? = some r → i + xs.length < winCap →
+    (xs.foldl winPush w)[i + xs.length]? = some r := by
+  induction xs with
+  | nil => intro w r i h _; simpa using h
+  | cons x xs ih =>
+    intro w r i h hl
+    simp only [List.foldl_cons, List.length_cons] at *
+    have := ih (winPush w x) r (i + 1) (by rw [winPush_get w x i (by omega)]; exact h) (by omega)
+    rw [show i + (xs.length + 1) = i + 1 + xs.length by omega]
+    exact this
+
+end Cell2v.Codec
+
+namespace Cell2v.Codec
+
+/-! ## `SetDictionary`: entries are stored under the trimmed key; duplicate-free calls are order independent -/
+
+theorem routes_append (d e : Dict) (x : Bytes) : (d ++ e).routes x = (d.routes x).or (e.routes x) := by
+  unfold Dict.routes
+  rw [List.find?_append]
+  cases d.find? (fun e => e.1 == x) <;> simp
+
+theorem codes_append (d e : Dict) (x : Nat) : (d ++ e).codes x = (d.codes x).or (e.codes x) := by
+  unfold Dict.codes
+  rw [List.find?_append]
+  cases d.find? (fun e => e.2 == x) <;> simp
+
+theorem routes_none_any (d : Dict) (r : Bytes) (h : d.routes r = none) : d.any (fun e => e.1 == r) = false := by
+  unfold Dict.routes at h
+  simp only [Option.map_eq_none_iff, List.find?_eq_none] at h
+  rw [List.any_eq_false]
+  exact h
+
+theorem codes_none_any (d : Dict) (c : Nat) (h : d.codes c = none) : d.any (fun e => e.2 == c) = false := by
+  unfold Dict.codes at h
+  simp only [Option.map_eq_none_iff, List.find?_eq_none] at h
+  rw [List.any_eq_false]
+  exact h
+
+theorem any_routes_none (d : Dict) (r : Bytes) (h : d.any (fun e => e.1 == r) = false) : d.routes r = none := by
+  unfold Dict.routes
+  rw [List.any_eq_false] at h
+  simp only [Option.map_eq_none_iff, List.find?_eq_none]
+  exact h
+
+theorem any_codes_none (d : Dict) (c : Nat) (h : d.any (fun e => e.2 == c) = false) : d.codes c = none := by
+  unfold Dict.codes
+  rw [List.any_eq_false] at h
+  simp only [Option.map_eq_none_iff, List.find?_eq_none]
+  exact h
+
+theorem add1_some_iff (d d' : Dict) (r : Bytes) (c : Nat) :
+    d.add1 r c = some d' ↔ (d.routes r = none ∧ d.codes c = none ∧ d' = d ++ [(r, c)]) := by
+  unfold Dict.add1
+  constructor
+  · intro h
+    split at h
+    · cases h
+    · split at h
+      · cases h
+      · rename_i h1 h2
+        cases h
+        exact ⟨any_routes_none d r (Bool.eq_false_iff.mpr h1), any_codes_none d c (Bool.eq_false_iff.mpr h2), rfl⟩
+  · intro ⟨h1, h2, h3⟩
+    rw [routes_none_any d r h1, codes_none_any d c h2, h3]
+    simp
+
+theorem single_routes (r x : Bytes) (c : Nat) : Dict.routes [(r, c)] x = if r = x then some c else none := by
+  unfold Dict.routes
+  by_cases h : r = x <;> simp [h]
+
+theorem single_codes (r : Bytes) (c x : Nat) : Dict.codes [(r, c)] x = if c = x then some r else none := by
+  unfold Dict.codes
+  by_cases h : c = x <;> simp [h]
+
+/-- a `SetDictionary` call that ran to the end: every entry is stored under its TRIMMED
+key in both maps, and nothing that was there before changed -/
+theorem setDictionary_stores (trim : Bytes → Bytes) (es : List (Bytes × Nat)) : ∀ (d d' : Dict),
+    setDictionary trim d es = (d', true) →
+    (∀ x c, d.routes x = some c → d'.routes x = some c) ∧
+    (∀ c x, d.codes c = some x → d'.codes c = some x) ∧
+    (∀ e ∈ es, d'.routes (trim e.1) = some e.2 ∧ d'.codes e.2 = some (trim e.1)) := by
+  induction es with
+  | nil =>
+    intro d d' h
+    simp only [setDictionary, Prod.mk.injEq, and_true] at h
+    subst h
+    exact ⟨fun _ _ h => h, fun _ _ h => h, by simp⟩
+  | cons e es ih =>
+    intro d d' h
+    obtain ⟨r, c⟩ := e
+    simp only [setDictionary] at h
+    cases h1 : d.add1 (trim r) c with
+    | none => rw [h1] at h; simp at h
+    | some d1 =>
+      rw [h1] at h
+      simp only at h
+      obtain ⟨p1, p2, p3⟩ := ih d1 d' h
+      obtain ⟨n1, n2, rfl⟩ := (add1_some_iff d d1 (trim r) c).mp h1
+      have k1 : ∀ x c', d.routes x = some c' → (d ++ [(trim r, c)]).routes x = some c' := by
+        intro x c' hx; rw [routes_append, hx]; rfl
+      have k2 : ∀ c' x, d.codes c' = some x → (d ++ [(trim r, c)]).codes c' = some x := by
+        intro c' x hx; rw [codes_append, hx]; rfl
+      refine ⟨fun x c' hx => p1 x c' (k1 x c' hx), fun c' x hx => p2 c' x (k2 c' x hx), ?_⟩
+      intro e he
+      simp only [List.mem_cons] at he
+      rcases he with rfl | he
+      · constructor
+        · apply p1; rw [routes_append, n1, single_routes]; simp
+        · apply p2; rw [codes_append, n2, single_codes]; simp
+      · exact p3 e he
+
+/-! order independence -/
+
+/-- the call `X` (keys already trimmed) has no duplicate, neither inside nor against `d` -/
+def FreshFor (d : Dict) (X : Dict) : Prop :=
+  (X.map (·.1)).Nodup ∧ (X.map (·.2)).Nodup ∧ ∀ e ∈ X, d.routes e.1 = none ∧ d.codes e.2 = none
+
+def trimmed (trim : Bytes → Bytes) (es : List (Bytes × Nat)) : Dict := es.map (fun e => (trim e.1, e.2))
+
+theorem setDictionary_fresh (trim : Bytes → Bytes) (es : List (Bytes × Nat)) : ∀ (d : Dict),
+    FreshFor d (trimmed trim es) → setDictionary trim d es = (d ++ trimmed trim es, true) := by
+  induction es with
+  | nil => intro d _; simp [setDictionary, trimmed]
+  | cons e es ih =>
+    intro d hf
+    obtain ⟨r, c⟩ := e
+    obtain ⟨f1, f2, f3⟩ := hf
+    simp only [trimmed, List.map_cons, List.nodup_cons, List.map_map] at f1 f2
+    have ⟨n1, n2⟩ := f3 (trim r, c) (by simp [trimmed])
+    simp only at n1 n2
+    have h1 : d.add1 (trim r) c = some (d ++ [(trim r, c)]) := (add1_some_iff _ _ _ _).mpr ⟨n1, n2, rfl⟩
+    simp only [setDictionary, h1]
+    rw [ih (d ++ [(trim r, c)])]
+    · simp [trimmed]
+    · refine ⟨by simpa [trimmed] using f1.2, by simpa [trimmed] using f2.2, ?_⟩
+      intro e he
+      have ⟨m1, m2⟩ := f3 e (by simp only [trimmed, List.map_cons, List.mem_cons]; right; exact he)
+      constructor
+      · rw [routes_append, m1, single_routes]
+        have : trim r ≠ e.1 := by
+          intro hh; apply f1.1
+          simp only [trimmed, List.mem_map] at he ⊢
+          obtain ⟨a, ha, rfl⟩ := he
+          exact ⟨a, ha, by simpa using hh.symm⟩
+        simp [this]
+      · rw [codes_append, m2, single_codes]
+        have : c ≠ e.2 := by
+          intro hh; apply f2.1
+          simp only [trimmed, List.mem_map] at he ⊢
+          obtain ⟨a, ha, rfl⟩ := he
+          exact ⟨a, ha, by simpa using hh.symm⟩
+        simp [this]
+
+
+theorem routes_mem_iff (X : Dict) (h : (X.map (·.1)).Nodup) (x : Bytes) (c : Nat) :
+    X.routes x = some c ↔ (x, c) ∈ X := by
+  induction X with
+  | nil => simp [Dict.routes]
+  | cons e X ih =>
+    obtain ⟨k, v⟩ := e
+    simp only [List.map_cons, List.nodup_cons] at h
+    have hh := routes_append [(k, v)] X x
+    simp only [List.singleton_append] at hh
+    rw [hh, single_routes]
+    by_cases hk : k = x
+    · subst hk
+      rw [if_pos rfl, show (some v).or (Dict.routes X k) = some v from rfl]
+      simp only [Option.some.injEq, List.mem_cons, Prod.mk.injEq, true_and]
+      constructor
+      · intro h'; left; exact h'.symm
+      · intro h'
+        rcases h' with h' | h'
+        · exact h'.symm
+        · exfalso; apply h.1; exact List.mem_map.mpr ⟨(k, c), h', rfl⟩
+    · simp only [hk, ↓reduceIte, Option.none_or, List.mem_cons, Prod.mk.injEq]
+      rw [ih h.2]
+      constructor
+      · intro h'; right; exact h'
+      · intro h'
+        rcases h' with h' | h'
+        · exact absurd h'.1.symm hk
+        · exact h'
+
+theorem codes_mem_iff (X : Dict) (h : (X.map (·.2)).Nodup) (c : Nat) (x : Bytes) :
+    X.codes c = some x ↔ (x, c) ∈ X := by
+  induction X with
+  | nil => simp [Dict.codes]
+  | cons e X ih =>
+    obtain ⟨k, v⟩ := e
+    simp only [List.map_cons, List.nodup_cons] at h
+    have hh := codes_append [(k, v)] X c
+    simp only [List.singleton_append] at hh
+    rw [hh, single_codes]
+    by_cases hk : v = c
+    · subst hk
+      rw [if_pos rfl, show (some k).or (Dict.codes X v) = some k from rfl]
+      simp only [Option.some.injEq, List.mem_cons, Prod.mk.injEq, and_true]
+      constructor
+      · intro h'; left; exact h'.symm
+      · intro h'
+        rcases h' with h' | h'
+        · exact h'.symm
+        · exfalso; apply h.1; exact List.mem_map.mpr ⟨(x, v), h', rfl⟩
+    · simp only [hk, ↓reduceIte, Option.none_or, List.mem_cons, Prod.mk.injEq]
+      rw [ih h.2]
+      constructor
+      · intro h'; right; exact h'
+      · intro h'
+        rcases h' with h' | h'
+        · exact absurd h'.2.symm hk
+        · exact h'
+
+theorem option_ext_some {α : Type} (a b : Option α) (h : ∀ x, a = some x ↔ b = some x) : a = b := by
+  cases a with
+  | none =>
+    cases b with
+    | none => rfl
+    | some y => exact absurd ((h y).mpr rfl) (by simp)
+  | some x => exact ((h x).mp rfl).symm
+
+theorem freshFor_perm (d X X' : Dict) (hp : X.Perm X') (h : FreshFor d X) : FreshFor d X' := by
+  obtain ⟨h1, h2, h3⟩ := h
+  exact ⟨(hp.map _).nodup_iff.mp h1, (hp.map _).nodup_iff.mp h2, fun e he => h3 e (hp.mem_iff.mpr he)⟩
+
+theorem lookups_perm (X X' : Dict) (hp : X.Perm X') (h1 : (X.map (·.1)).Nodup) (h2 : (X.map (·.2)).Nodup) :
+    (∀ x, X.routes x = X'.routes x) ∧ (∀ c, X.codes c = X'.codes c) := by
+  have h1' := (hp.map (·.1)).nodup_iff.mp h1
+  have h2' := (hp.map (·.2)).nodup_iff.mp h2
+  constructor
+  · intro x; apply option_ext_some; intro c
+    rw [routes_mem_iff X h1, routes_mem_iff X' h1', hp.mem_iff]
+  · intro c; apply option_ext_some; intro x
+    rw [codes_mem_iff X h2, codes_mem_iff X' h2', hp.mem_iff]
+
+/-- converse of `setDictionary_fresh`: a call that ran to the end had no duplicate -/
+theorem setDictionary_true_fresh (trim : Bytes → Bytes) (es : List (Bytes × Nat)) : ∀ (d d' : Dict),
+    setDictionary trim d es = (d', true) → FreshFor d (trimmed trim es) := by
+  induction es with
+  | nil => intro d d' _; simp [FreshFor, trimmed]
+  | cons e es ih =>
+    intro d d' h
+    obtain ⟨r, c⟩ := e
+    simp only [setDictionary] at h
+    cases h1 : d.add1 (trim r) c with
+    | none => rw [h1] at h; simp at h
+    | some d1 =>
+      rw [h1] at h
+      simp only at h
+      obtain ⟨n1, n2, rfl⟩ := (add1_some_iff d d1 (trim r) c).mp h1
+      obtain ⟨f1, f2, f3⟩ := ih _ d' h
+      -- entries of the rest are absent from d ++ [(trim r, c)], hence from d and different from (trim r, c)
+      have sep : ∀ e ∈ trimmed trim es, d.routes e.1 = none ∧ d.codes e.2 = none ∧ trim r ≠ e.1 ∧ c ≠ e.2 := by
+        intro e he
+        have ⟨a, b⟩ := f3 e he
+        rw [routes_append, single_routes] at a
+        rw [codes_append, single_codes] at b
+        refine ⟨?_, ?_, ?_, ?_⟩
+        · cases hd : d.routes e.1 with
+          | none => rfl
+          | some v => rw [hd] at a; simp at a
+        · cases hd : d.codes e.2 with
+          | none => rfl
+          | some v => rw [hd] at b; simp at b
+        · intro hh; rw [if_pos hh] at a; cases hd : d.routes e.1 <;> rw [hd] at a <;> simp at a
+        · intro hh; rw [if_pos hh] at b; cases hd : d.codes e.2 <;> rw [hd] at b <;> simp at b
+      refine ⟨?_, ?_, ?_⟩
+      · simp only [trimmed, List.map_cons, List.nodup_cons]
+        refine ⟨?_, f1⟩
+        intro hm
+        obtain ⟨e, he, heq⟩ := List.mem_map.mp hm
+        exact (sep e he).2.2.1 heq.symm
+      · simp only [trimmed, List.map_cons, List.nodup_cons]
+        refine ⟨?_, f2⟩
+        intro hm
+        obtain ⟨e, he, heq⟩ := List.mem_map.mp hm
+        exact (sep e he).2.2.2 heq.symm
+      · intro e he
+        simp only [trimmed, List.map_cons, List.mem_cons] at he
+        rcases he with rfl | he
+        · exact ⟨n1, n2⟩
+        · exact ⟨(sep e he).1, (sep e he).2.1⟩
+
+end Cell2v.Codec
